@@ -2,6 +2,7 @@ import Dmn.Model.Sexp
 import Dmn.Model.RefParser
 import Dmn.Model.Escape
 import Dmn.Model.RefParserLayout
+import Dmn.Model.StringLit
 
 /-! Driver handlers for C06.
 
@@ -16,6 +17,10 @@ import Dmn.Model.RefParserLayout
 * `(c06 gap (s c…))` → `(left n)`: the number of code points `GapLayout.skipGap` leaves.
 * `(c06 nextis (s chars…) (s c…))` → `(b true|false)`: `GapLayout.nextIs` (`is_next_character`) on the text.
 * `(c06 table)` → the levels the model reads from `Gen/Prec.lean`.
+* `(c06 strlit (s c…))` → what the lexer model (`Dmn.Lexer.consumeString`) makes of the text, whose first character is
+  the opening quote: `(ok (s c…) pos)`, `(undef pos)`, `(eof pos)`, `(err pos)`.
+* `(c06 pieces (raw c) (simple l) (u4 c mask) (u6 c mask) (sur c mask) (bs c) …)` → `(pieces <all ok> (s text…) (s denoted…))`:
+  the specification `Dmn.StringLit` (render, denote) on the pieces the harness built.
 
 Trees: `(a n 3)` `(a u 5)` `(a l 2)` `(bin add L R)` `(neg E)` `(between E LO HI)`
 `(inst E q qs…)` `(path E n)` `(filter E I)` `(call F A…)`.  Results: `(ok <tree>)` / `(fail)`. -/
@@ -342,6 +347,34 @@ def handle (args : List Sexp) : String :=
     match chars.mapM Sexp.nat?, cs.mapM Sexp.nat? with
     | some chars, some cs => toString (Sexp.list [.atom "b", Sexp.ofBool (GapLayout.nextIs chars cs)])
     | _, _ => "(error bad-request)"
+  | [.atom "strlit", .list (.atom "s" :: cs)] =>
+    match cs.mapM Sexp.nat? with
+    | some cs =>
+      let cpsSexp (l : List Nat) : Sexp := .list (.atom "s" :: l.map Sexp.ofNat)
+      match Dmn.Lexer.consumeString cs 0 with
+      | .ok (⟨.string, .string str⟩, p) => toString (Sexp.list [.atom "ok", cpsSexp str, Sexp.ofNat p])
+      | .ok (⟨.yyUndef, _⟩, p) => toString (Sexp.list [.atom "undef", Sexp.ofNat p])
+      | .ok (⟨.yyEof, _⟩, p) => toString (Sexp.list [.atom "eof", Sexp.ofNat p])
+      | .ok (_, p) => toString (Sexp.list [.atom "other", Sexp.ofNat p])
+      | .error _ p => toString (Sexp.list [.atom "err", Sexp.ofNat p])
+      | .panic _ => "(panic)"
+      | .fuelOut => "(fuelout)"
+    | none => "(error bad-request)"
+  | .atom "pieces" :: ps =>
+    let piece? : Sexp → Option StringLit.Piece
+      | .list [.atom "raw", c] => (Sexp.nat? c).map .raw
+      | .list [.atom "simple", c] => (Sexp.nat? c).map .simple
+      | .list [.atom "bs", c] => (Sexp.nat? c).map .bs
+      | .list [.atom "u4", c, m] => do pure (.u4 (← Sexp.nat? c) (← Sexp.nat? m))
+      | .list [.atom "u6", c, m] => do pure (.u6 (← Sexp.nat? c) (← Sexp.nat? m))
+      | .list [.atom "sur", c, m] => do pure (.sur (← Sexp.nat? c) (← Sexp.nat? m))
+      | _ => none
+    match ps.mapM piece? with
+    | some ps =>
+      let cpsSexp (l : List Nat) : Sexp := .list (.atom "s" :: l.map Sexp.ofNat)
+      toString (Sexp.list [.atom "pieces", Sexp.ofBool (ps.all StringLit.Piece.ok), cpsSexp (StringLit.literal ps),
+        cpsSexp (StringLit.denote ps)])
+    | none => "(error bad-request)"
   | [.atom "table"] =>
     let bins : List BinOp := [.or, .and, .eq, .nq, .lt, .le, .gt, .ge, .in_, .add, .sub, .mul, .div, .exp]
     toString (Sexp.list (.atom "table" ::
